@@ -9,7 +9,7 @@ from . import netbuild
 
 
 def _isnone(v):
-    return v is None or (isinstance(v, float) and np.isnan(v))
+    return v is None or (isinstance(v, (float, np.floating)) and np.isnan(v))
 
 
 def indexer_values(ss, mdl, indexer):
@@ -96,7 +96,7 @@ def observe(ss, phase):
             except (KeyError, AttributeError):
                 ext.append(dict(key="%s.%s" % (mname, vname), a=[int(a) for a in var.a], expected=[-1]))
         # external parameters follow the index field too
-        for pname, par in (mdl.params_ext.items() if phase == 1 else ()):
+        for pname, par in mdl.params_ext.items():
             try:
                 idxs = indexer_values(ss, mdl, par.indexer)
                 for k, i in enumerate(idxs):
@@ -105,9 +105,12 @@ def observe(ss, phase):
                         continue
                     pm, uid = r
                     src = pm.__dict__[par.src]
+                    if phase != 1 and not isinstance(src.v, list):
+                        continue        # numeric values are converted / updated after linking; borrowed index values are not
                     sv = src.v[uid]
                     pv = par.v[k]
-                    same = (sv == pv) or (isinstance(sv, float) and isinstance(pv, float) and np.isnan(sv) and np.isnan(pv))
+                    same = (sv == pv) or (_isnone(sv) and _isnone(pv)) or \
+                        (isinstance(sv, float) and isinstance(pv, float) and np.isnan(sv) and np.isnan(pv))
                     params_ok = params_ok and bool(same)
             except (KeyError, AttributeError, IndexError, TypeError):
                 pass
@@ -150,6 +153,8 @@ def run_addr(sc):
         ss, ids, ok = netbuild.build(sc["spec"], setup=False)
     for m in sc.get("collate", []):
         ss.models[m].flags.collate = True
+    for model, d in sc.get("add_before_setup", []):
+        ss.add(model, dict(d))
     for mname, pname, vals in sc.get("set_before_setup", []):
         par = ss.models[mname].__dict__[pname]
         for k, v in enumerate(vals[:ss.models[mname].n]):
